@@ -49,7 +49,7 @@ ASSUMPTIONS = [
 LEVEL_TEXT = ("generated-input search over the ClientHello grammar, its fragmentations and arbitrary/mutated bytes; every "
               "result is compared with an independent parser; not exhaustive")
 LEVEL_NOTE = "trusts lib/ref_clienthello.py and the sans-io driver"
-QUICK_N, THOROUGH_N = 40_000, 4_000_000
+QUICK_N, THOROUGH_N = 26_000, 4_000_000
 BUDGET_S = (240, 3600)
 
 # ------------------------------------------------------------------------------------------------ strategies
